@@ -50,8 +50,7 @@ def _num(md, name, d):
 
 def replay_point(l, what):
     """replay at a concrete generic point through the real (numba) functions on a 1x1x1x1 grid"""
-    def rp(md):
-        th = 1.1
+    def rp_at(md, th):
         U, Ut, Up, Upp, Utp = 0.7 + 0.2j, -0.3 + 0.5j, 0.9 - 0.4j, 0.35 + 0.15j, -0.6 + 0.25j
         Utt = -l * (l + 1) * U - (math.cos(th) / math.sin(th)) * Ut - Upp / math.sin(th) ** 2
         y = [1.3 - 0.2j, 0.8 + 0.6j, -0.4 + 0.3j, 0.5 - 0.7j, 0.1j, 0.2]
@@ -88,7 +87,18 @@ def replay_point(l, what):
                 bad.append('heating %r vs 2 Im(mu)|dev eps|^2 + Im(K)|tr eps|^2 = %r' % (hv, want))
         else:
             bad.append('heating raised ' + h['error'])
-        return bool(bad), '; '.join(bad) or 'all relations hold at the generic point'
+        return bool(bad), ('colatitude %.2f rad: ' % th) + ('; '.join(bad) or 'all relations hold')
+
+    def rp(md):
+        # generic points in both hemispheres (the sign of cos(colatitude) matters for cot) and near both poles; the claim is re-evaluated on the real functions at each
+        first = None
+        for th in (1.1, 2.4, 0.35, 2.9):
+            ok, detail = rp_at(md, th)
+            if first is None:
+                first = (ok, detail)
+            if ok:
+                return ok, detail
+        return first[0], first[1] + ' (also at colatitudes 2.4, 0.35, 2.9)'
     return rp
 
 
